@@ -74,8 +74,11 @@ func init() {
 	register("C16", "", rulePlanImmutable)
 	register("C11", "", detectors[0])
 	register("C01", "", ruleDedup)
-	register("C05", "", ruleRoutingPairs, ruleNodeFieldSignature)
-	register("C04", "", ruleNodeFieldSignature)
+	register("C05", "", ruleRoutingPairs, ruleNodeFieldSignature, ruleNodeLookupScope)
+	register("C04", "", ruleNodeFieldSignature, ruleNodeLookupScope)
+	register("C02", "", ruleNodeLookupScope, ruleRoutingTableWrites)
+	register("C04", "", ruleRoutingTableWrites)
+	register("C13", "", ruleRoutingTableWrites)
 	register("C05", "", ruleMergerGuards, ruleMapRanges(scMerger, 5))
 	register("C04", "", ruleRoutingPairs, ruleNodeFlag, ruleReducers, ruleCallers(func(c string) bool { return strings.Contains(c, "TypeURLMap") }))
 	register("C10", "", ruleErrStructure, ruleDownstreamErrorPath)
